@@ -33,8 +33,31 @@ class Clone(ct.Impl):
         wcells = dict(zip(f.__code__.co_freevars, f.__closure__ or ()))
         stub = wcells['user_function'].cell_contents if 'user_function' in wcells else f.__wrapped__
         self.same_wrapped = stub is f.__wrapped__
-        cells = dict(zip(stub.__code__.co_freevars, stub.__closure__ or ()))
-        self.log = cells['log'].cell_contents if 'log' in cells else []
+        self.log = _find_cell(stub, 'log')
+        self.received = _find_cell(stub, 'received')
+        if self.log is None:
+            self.log = []
+        if self.received is None:
+            self.received = []
+
+
+def _find_cell(fn, name, depth=0):
+    """the closure variable [name] of fn or of a function nested in its closure"""
+    if depth > 3 or not getattr(fn, '__closure__', None):
+        return None
+    cells = dict(zip(fn.__code__.co_freevars, fn.__closure__))
+    if name in cells:
+        return cells[name].cell_contents
+    for c in cells.values():
+        try:
+            v = c.cell_contents
+        except ValueError:
+            continue
+        if callable(v) and hasattr(v, '__code__'):
+            r = _find_cell(v, name, depth + 1)
+            if r is not None:
+                return r
+    return None
 
 
 def strip(obs):
